@@ -180,6 +180,13 @@ ODD_DEFINES = ["BOOL False True", "STR", "", "int 0 10", "string", "BOOL", 'ENUM
                "FLOAT -1.5 1e3", "HEX 0 255", "STRING "]
 
 
+def db_define_values(db, name):
+    for cat in ("global_defines", "ecu_defines", "frame_defines", "signal_defines"):
+        if name in getattr(db, cat):
+            return getattr(db, cat)[name].values
+    raise KeyError(name)
+
+
 def add_odd_defines(db, rng):
     """defines of odd kinds in all four categories, some with defaults, some used by an object"""
     added = []
@@ -193,7 +200,9 @@ def add_odd_defines(db, rng):
             if rng.random() < 0.5:
                 db.add_define_default(name, rng.choice(["True", "False", "0", "x", '"quoted"']))
             if objs and rng.random() < 0.6:
-                val = "True" if d.startswith("BOOL") else ("1" if d.upper().startswith(("INT", "HEX", "ENUM", "FLOAT")) else "txt")
+                val = "True" if d.startswith("BOOL") else ("1" if d.upper().startswith(("INT", "HEX", "FLOAT")) else "txt")
+                if d.startswith("ENUM"):
+                    val = db_define_values(db, name)[0]      # a label of the enumeration (dbc/dbf map labels to keys)
                 rng.choice(objs).add_attribute(name, val)
             added.append([cat, name, d])
     return added
@@ -205,7 +214,7 @@ FILE_BASE = -1000          # idx = FILE_BASE - (4 * file number + bus number)
 BUSES_PER_FILE = 4
 REREAD_BASE = 1000000      # idx = REREAD_BASE + 8 * generated case + format number
 REREAD_FORMATS = [("dbc", "dbc", {}), ("dbf", "dbf", {}), ("sym", "sym", {}), ("kcd", "kcd", {}), ("json", "json", {"jsonExportAll": True}),
-                  ("arxml", "arxml", {}), ("fibex", "fibex", {}), ("xls", "xls", {})]
+                  ("arxml", "arxml", {}), ("xls", "xls", {})]      # (what fibex writes its own reader does not read back: KeyError)
 
 
 def sample_files(repo):
@@ -251,6 +260,8 @@ def file_case(idx, C):
 def reread_case(base_seed, idx, C):
     import canmatrix.formats as F
     j, fn = divmod(idx - REREAD_BASE, 8)
+    if fn >= len(REREAD_FORMATS):
+        return None, dict(profile="reread", idx=idx, features={}, skipped="no such format")
     key, mod, opt = REREAD_FORMATS[fn]
     db0, info0 = build_case(base_seed, j, C)
     info = dict(profile="reread-" + key, idx=idx, base_seed=base_seed, features={}, generated_case=j, via=key)
@@ -369,6 +380,14 @@ def build_case(base_seed, idx, C):
     return db, info
 
 
+def copier(db, base_seed, idx, C):
+    """-> function giving a fresh matrix equal to db that shares NO object with it: the case rebuilt from (seed, idx).
+    (copy.deepcopy would do for today's classes, but it shares whatever a class decides to share through __deepcopy__, and a SYM
+    import keeps exception objects in load_errors that cannot be deep-copied at all; p_c14 checks separately that deepcopy is
+    faithful where it works.)"""
+    return lambda: build_case(base_seed, idx, C)[0]
+
+
 def payloads(rng, frame, n=3):
     out = [bytes(frame.size), bytes([0xFF] * frame.size)]
     for _ in range(n):
@@ -381,6 +400,11 @@ def decode_all(db, base_seed, idx):
     rng = random.Random(base_seed * 104729 + idx)
     out = []
     for fi, fr in enumerate(db.frames):
+        if getattr(fr, "is_pdu_container", False):
+            # Frame.decode of a container-PDU frame does not return on some arbitrary payloads (e.g. tests/files/arxml/ARXMLContainerTest.arxml,
+            # Frame_With_Container, payload e11718fdfc5fa4b2f2268f27caa9d3ff: no return within seconds, memory grows without bound) - not C14's subject
+            out.append([fi, "container frame: decode not probed"])
+            continue
         for p in payloads(rng, fr):
             for how in ("frame", "matrix"):
                 try:
